@@ -3,11 +3,137 @@ C17 — recovered solutions are feasible, ordered and consistent with the bound.
 Property theorems about `Model/Solrec.lean`.
 -/
 import SageoptModel.Model.Solrec
+import SageoptModel.Lemmas.SolrecBasic
+import SageoptModel.Lemmas.SolrecSelect
 
 namespace Sageopt.Props.C17
 open Sageopt Sageopt.Solrec
 
 /-- NaN never passes a single comparison of the filter -/
 theorem nan_rejected (tol : Rat) : geNegTol tol .nan = false ∧ absLeTol tol .nan = false := ⟨rfl, rfl⟩
+
+/-- what a `true` verdict of the filter means: every inequality value is a number `≥ −ineq_tol` (or +∞), every equality
+    value is a number within `eq_tol` of zero; in particular no value is NaN -/
+theorem isFeasible_iff (itol etol : Rat) (gt eq : List FV) :
+    isFeasible itol etol gt eq = true ↔
+      (∀ v ∈ gt, v = .pinf ∨ ∃ q, v = .num q ∧ -itol ≤ q) ∧ (∀ v ∈ eq, ∃ q, v = .num q ∧ -etol ≤ q ∧ q ≤ etol) :=
+  sr_isFeasible_iff itol etol gt eq
+
+/-- a NaN constraint value is always a violation (the defect F8 was exactly the failure of this statement) -/
+theorem nan_never_feasible (itol etol : Rat) (gt eq : List FV) (h : FV.nan ∈ gt ∨ FV.nan ∈ eq) :
+    isFeasible itol etol gt eq = false := by
+  cases hf : isFeasible itol etol gt eq
+  · rfl
+  · rw [isFeasible_iff] at hf
+    rcases h with h | h
+    · rcases hf.1 _ h with h' | ⟨q, h', _⟩ <;> cases h'
+    · obtain ⟨q, h', _⟩ := hf.2 _ h
+      cases h'
+
+/-- every returned point passed the filter -/
+theorem select_feasible (itol etol : Rat) (cands : List Cand) :
+    ∀ i ∈ select itol etol cands, ∃ c, cands[i]? = some c ∧ isFeasible itol etol c.gt c.eq = true :=
+  fun i hi => (sr_mem_select itol etol cands i).1 hi
+
+/-- every candidate that passes the filter is returned, exactly once -/
+theorem select_complete (itol etol : Rat) (cands : List Cand) :
+    (select itol etol cands).Nodup ∧
+    ∀ i c, cands[i]? = some c → isFeasible itol etol c.gt c.eq = true → i ∈ select itol etol cands :=
+  ⟨sr_select_nodup itol etol cands, fun i c h1 h2 => (sr_mem_select itol etol cands i).2 ⟨c, h1, h2⟩⟩
+
+/-- the returned list is sorted by nondecreasing objective value (whenever no surviving objective value is NaN) -/
+theorem select_sorted (itol etol : Rat) (cands : List Cand)
+    (hnum : ∀ c ∈ cands, isFeasible itol etol c.gt c.eq = true → c.obj ≠ .nan) :
+    (select itol etol cands).Pairwise fun i j =>
+      ¬ fvLt ((cands.getD j ⟨[], [], .nan⟩).obj) ((cands.getD i ⟨[], [], .nan⟩).obj) = true := by
+  have _ := hnum
+  exact (sr_select_order itol etol cands ⟨[], [], .nan⟩).imp fun h => ne_true_of_eq_false h.1
+
+/-- stability: candidates with equal objective values keep the order in which they were examined -/
+theorem select_stable (itol etol : Rat) (cands : List Cand)
+    (hnum : ∀ c ∈ cands, isFeasible itol etol c.gt c.eq = true → c.obj ≠ .nan) :
+    (select itol etol cands).Pairwise fun i j =>
+      (cands.getD i ⟨[], [], .nan⟩).obj = (cands.getD j ⟨[], [], .nan⟩).obj → i < j := by
+  have _ := hnum
+  exact (sr_select_order itol etol cands ⟨[], [], .nan⟩).imp fun h => h.2
+
+/-- larger tolerances only add points -/
+theorem select_mono (itol etol itol' etol' : Rat) (h1 : itol ≤ itol') (h2 : etol ≤ etol') (cands : List Cand) :
+    ∀ i ∈ select itol etol cands, i ∈ select itol' etol' cands := by
+  intro i hi
+  obtain ⟨c, hc, hf⟩ := (sr_mem_select itol etol cands i).1 hi
+  exact (sr_mem_select itol' etol' cands i).2 ⟨c, hc, sr_isFeasible_mono h1 h2 hf⟩
+
+/-! ### additional facts -/
+
+/-- membership in the returned list, in one statement -/
+theorem select_mem_iff (itol etol : Rat) (cands : List Cand) (i : Nat) :
+    i ∈ select itol etol cands ↔ ∃ c, cands[i]? = some c ∧ isFeasible itol etol c.gt c.eq = true :=
+  sr_mem_select itol etol cands i
+
+/-- the two order statements hold for the model with no assumption on the objective values (a NaN key is never smaller
+    than anything, so it is inserted last and nothing is inserted in front of it on its account); the hypothesis of
+    `select_sorted` / `select_stable` is what makes the model agree with `list.sort`, not what makes them true -/
+theorem select_order_unconditional (itol etol : Rat) (cands : List Cand) :
+    (select itol etol cands).Pairwise fun i j =>
+      fvLt ((cands.getD j ⟨[], [], .nan⟩).obj) ((cands.getD i ⟨[], [], .nan⟩).obj) = false ∧
+      ((cands.getD i ⟨[], [], .nan⟩).obj = (cands.getD j ⟨[], [], .nan⟩).obj → i < j) :=
+  sr_select_order itol etol cands ⟨[], [], .nan⟩
+
+/-- when no surviving objective value is NaN, two returned points neither of which is smaller than the other have the
+    same objective value, so "sorted + stable" determines the returned list -/
+theorem select_ties_equal (itol etol : Rat) (cands : List Cand)
+    (hnum : ∀ c ∈ cands, isFeasible itol etol c.gt c.eq = true → c.obj ≠ .nan)
+    (i j : Nat) (hi : i ∈ select itol etol cands) (hj : j ∈ select itol etol cands)
+    (h1 : fvLt ((cands.getD i ⟨[], [], .nan⟩).obj) ((cands.getD j ⟨[], [], .nan⟩).obj) = false)
+    (h2 : fvLt ((cands.getD j ⟨[], [], .nan⟩).obj) ((cands.getD i ⟨[], [], .nan⟩).obj) = false) :
+    (cands.getD i ⟨[], [], .nan⟩).obj = (cands.getD j ⟨[], [], .nan⟩).obj := by
+  obtain ⟨ci, hci, hfi⟩ := (sr_mem_select itol etol cands i).1 hi
+  obtain ⟨cj, hcj, hfj⟩ := (sr_mem_select itol etol cands j).1 hj
+  have ei : cands.getD i ⟨[], [], .nan⟩ = ci := by rw [List.getD_eq_getElem?_getD, hci]; rfl
+  have ej : cands.getD j ⟨[], [], .nan⟩ = cj := by rw [List.getD_eq_getElem?_getD, hcj]; rfl
+  rw [ei, ej] at h1 h2 ⊢
+  exact sr_fvLt_incomp (hnum ci (List.mem_of_getElem? hci) hfi) (hnum cj (List.mem_of_getElem? hcj) hfj) h1 h2
+
+/-! ### instances -/
+
+/-- five candidates: NaN inequality value; equality violated; feasible with objective 5; feasible with objective 2;
+    feasible (inside the tolerances only) with objective 5 again -/
+private def exCands : List Cand :=
+  [ ⟨[.num 1, .nan], [.num 0], .num 1⟩,
+    ⟨[.num 1, .pinf], [.num (1/2)], .num 0⟩,
+    ⟨[.num 0, .pinf], [.num 0], .num 5⟩,
+    ⟨[.num 3], [.num 0, .num 0], .num 2⟩,
+    ⟨[.num (-1/1000)], [.num (1/1000)], .num 5⟩ ]
+
+private theorem exCands_num (itol etol : Rat) :
+    ∀ c ∈ exCands, isFeasible itol etol c.gt c.eq = true → c.obj ≠ .nan := by
+  intro c hc _
+  simp only [exCands, List.mem_cons, List.not_mem_nil, or_false] at hc
+  rcases hc with rfl | rfl | rfl | rfl | rfl <;> simp
+
+private theorem exSel_tol : select (1/100) (1/100) exCands = [3, 2, 4] := by with_unfolding_all decide
+private theorem exSel_zero : select 0 0 exCands = [3, 2] := by with_unfolding_all decide
+
+example : isFeasible (1/100) (1/100) [.num 1, .nan] [.num 0] = false :=
+  nan_never_feasible (1/100) (1/100) [.num 1, .nan] [.num 0] (.inl (by simp))
+
+example : [3, 2, 4].Pairwise fun i j =>
+    ¬ fvLt ((exCands.getD j ⟨[], [], .nan⟩).obj) ((exCands.getD i ⟨[], [], .nan⟩).obj) = true := by
+  have h := select_sorted (1/100) (1/100) exCands (exCands_num _ _)
+  rwa [exSel_tol] at h
+
+example : [3, 2, 4].Pairwise fun i j =>
+    (exCands.getD i ⟨[], [], .nan⟩).obj = (exCands.getD j ⟨[], [], .nan⟩).obj → i < j := by
+  have h := select_stable (1/100) (1/100) exCands (exCands_num _ _)
+  rwa [exSel_tol] at h
+
+example : ∀ i ∈ [3, 2], i ∈ [3, 2, 4] := by
+  have h := select_mono 0 0 (1/100) (1/100) (by with_unfolding_all decide) (by with_unfolding_all decide) exCands
+  rwa [exSel_zero, exSel_tol] at h
+
+example : (exCands.getD 2 ⟨[], [], .nan⟩).obj = (exCands.getD 4 ⟨[], [], .nan⟩).obj :=
+  select_ties_equal (1/100) (1/100) exCands (exCands_num _ _) 2 4 (by rw [exSel_tol]; simp) (by rw [exSel_tol]; simp)
+    (by with_unfolding_all decide) (by with_unfolding_all decide)
 
 end Sageopt.Props.C17
